@@ -69,6 +69,10 @@ def jobs(tier, seed):
         for events in (['enter', 'times', 'leave'], ['times', 'enter', 'leave'], ['apply', 'enter', 'times', 'leave'], ['apply', 'plot'], ['plot'], ['enter', 'plot', 'leave']):
             for final in ('retained', 'times', 'unrolled'):
                 out.append({'prog': prog, 'events': events, 'final': final, 'name': 'override entered and left around an observation'})
+    meas_block = {'steps': [{'k': ['S', {'steps': [{'k': ['M', 1, 'a'], 'rel': None}, {'k': ['W', 0, 'ALL'], 'rel': None}], 'rep': 2}], 'rel': None}, {'k': ['M', 1, 'a'], 'rel': None}]}
+    for events in (['acq', 'apply'], ['ops', 'acq', 'apply'], ['stim', 'apply'], ['acq', 'add', 'apply']):
+        for final in ('times', 'stim'):
+            out.append({'prog': meas_block, 'events': events, 'final': final, 'name': 'acquisition indices read before a repeated block with a measurement is unrolled'})
     for _ in range(n_pairs):
         kind = rng.random()
         if kind < 0.35:
@@ -124,7 +128,8 @@ def observe_kind(kind, circuit):
     if kind == 'dur':
         return circuit.duration
     if kind == 'acq':
-        return [circuit.get_acquisition_indices(q) for q in (0, 1)]
+        per_op = [(o.circuit_level_acquisition_index, o.acquisition_index) for o in circuit.operations if isinstance(o, IAcquisitionOperation)]
+        return per_op, [circuit.get_acquisition_indices(q) for q in (0, 1)]
     if kind == 'vis':
         return construct_visual_description(circuit)
     if kind == 'plot':
